@@ -92,7 +92,7 @@ def encrypt_compact(
     :return: JWE Compact Serialization in bytes
     """
 
-    if algorithms:
+    if algorithms is not None:
         registry = JWERegistry(algorithms=algorithms)
     elif registry is None:
         registry = default_registry
@@ -137,7 +137,7 @@ def decrypt_compact(
     :return: object of the ``CompactEncryption``
     """
     obj = extract_compact(to_bytes(value))
-    if algorithms:
+    if algorithms is not None:
         registry = JWERegistry(algorithms=algorithms)
     elif registry is None:
         registry = default_registry
@@ -207,7 +207,7 @@ def encrypt_json(
     :return: JWE JSON Serialization in dict
     """
 
-    if algorithms:
+    if algorithms is not None:
         registry = JWERegistry(algorithms=algorithms)
     elif registry is None:
         registry = default_registry
@@ -243,7 +243,7 @@ def decrypt_json(
     :param sender_key: only required when using ECDH-1PU
     :return: an instance of ``GeneralJSONEncryption`` or ``FlattenedJSONEncryption``
     """
-    if algorithms:
+    if algorithms is not None:
         registry = JWERegistry(algorithms=algorithms)
     elif registry is None:
         registry = default_registry
